@@ -1,15 +1,15 @@
+import Wayfind.Proofs.Reachable
 import Wayfind.Proofs.Corollaries
 
 /-! # C06 — templates do not interfere
-If a reachable tree `t2` holds all routes of a reachable tree `t1` and every additional route does not fit `path`,
+If a reachable router `r2` holds all routes of a reachable router `r1` and every additional route does not fit `path`,
 the result for `path` is the same on both: adding (read backwards: removing) templates that do not fit a path cannot
-change how it is routed. And a path the added routes do fit is matched afterwards (C02).
-Status: **partial** — tree layer. -/
+change how it is routed. A path the added routes do fit is matched afterwards (C02).
+Status: **partial** — "insert adds exactly the template's expansions" is the registry invariant. -/
 
-theorem C06_non_interference (env : Env) (ops1 ops2 : List ROp)
-    (hw1 : ∀ op ∈ ops1, op.wf) (hw2 : ∀ op ∈ ops2, op.wf) (path : Bytes)
-    (hsub : ∀ P i, Mem (Node.routes (ops1.foldl applyROp Node.empty)) P i → Mem (Node.routes (ops2.foldl applyROp Node.empty)) P i)
-    (hextra : ∀ P i, Mem (Node.routes (ops2.foldl applyROp Node.empty)) P i →
-      Mem (Node.routes (ops1.foldl applyROp Node.empty)) P i ∨ ¬ FitsN env P path) :
-    Node.search env (ops1.foldl applyROp Node.empty) path [] = Node.search env (ops2.foldl applyROp Node.empty) path [] :=
-  search_irrelevant env _ _ (good3_reachable ops1 hw1 _ good3_empty) (good3_reachable ops2 hw2 _ good3_empty) path hsub hextra
+theorem C06_non_interference (env : Env) (r1 r2 : Router) (h1 : Reachable r1) (h2 : Reachable r2) (path : Bytes)
+    (hsub : ∀ P i, Mem (Node.routes r1.root) P i → Mem (Node.routes r2.root) P i)
+    (hextra : ∀ P i, Mem (Node.routes r2.root) P i → Mem (Node.routes r1.root) P i ∨ ¬ FitsN env P path) :
+    r1.search env path = r2.search env path := by
+  unfold Router.search
+  rw [search_irrelevant env _ _ (reachable_good3 r1 h1) (reachable_good3 r2 h2) path hsub hextra]
